@@ -16,9 +16,10 @@
     and the End-of-RIB marker of that family, which tells the peer that the advertisement is
     complete, is not sent either (`wire-eor-while-deferred`).
   * "then every prefix received meanwhile is announced exactly once": at the step that releases
-    a family, every established speaker receives, for every prefix of it that has a usable path
-    announced on the present session of somebody else and none from the speaker itself, exactly one
-    announcement
+    a family, every established speaker receives, for every prefix of it that has a usable path of
+    somebody else which the table must still hold (announced on that peer's present session, or retained
+    from a session that ended with graceful restart for the family and not yet followed by a new one) and
+    none from the speaker itself, exactly one announcement
     (`wire-release-not-announced`), nobody receives an announcement twice (`wire-announced-twice`),
     and the End-of-RIB of the family follows the announcements (`wire-eor-missing-after-release`,
     `wire-eor-before-routes`).
@@ -130,20 +131,23 @@ def firstEorIdx (fs : List Frame) (f : Fam) : Option Nat :=
 
 def usableRib (r : R) : List (Fam × Nat × Peer) := r.rib.filter (fun e => !r.invalid.contains e.2.2)
 
-/-- prefixes of family `f` speaker `q` must be told at the release: a usable path from somebody else
-    that was announced on that peer's PRESENT session (`fresh`; what is kept, stale, from an earlier
-    session of a peer may have been purged by the helper side, which is C10's subject: it may be
-    announced, it need not), none from `q` itself -/
+/-- prefixes of family `f` speaker `q` must be told at the release: a usable path from somebody else that
+    the table must still hold (`owedPaths`), none from `q` itself -/
 def owed (r : R) (fresh : List (Fam × Nat × Peer)) (f : Fam) (q : Peer) : List Nat :=
   let mine := (usableRib r).filter (·.1 = f)
   let ns := ((mine.filter (fun e => e.2.2 ≠ q && fresh.contains e)).map (·.2.1))
   (ns.filter (fun n => !mine.any (fun e => e.2.1 = n && e.2.2 = q))).eraseDups
 
-/-- the paths announced on sessions that are up now -/
+/-- The paths the table must still hold: what a peer announced on its present session, and what is
+    RETAINED from a session that ended with graceful restart negotiated for the family (the reference
+    `rib` keeps exactly those at `wd`; the others leave it) — until that peer establishes again: from
+    then on the helper side may purge what it retained (at once for a family not re-negotiated, at the
+    peer's End-of-RIB otherwise; that is C10's subject), so a retained path is owed again only once it
+    is re-announced.  The restart time (120 s) does not elapse within a case. -/
 def freshNext (fresh : List (Fam × Nat × Peer)) : Ev → List (Fam × Nat × Peer)
   | .ins p f n => if fresh.contains (f, n, p) then fresh else (f, n, p) :: fresh
   | .rm p f n => fresh.filter (· ≠ (f, n, p))
-  | .rd (.wd p) => fresh.filter (·.2.2 ≠ p)
+  | .rd (.est p _) => fresh.filter (·.2.2 ≠ p)
   | _ => fresh
 
 def wstepOk (cfg : Cfg) (ev : Ev) (r r' : R) (fresh' : List (Fam × Nat × Peer)) (o : StepObs) : Except String Unit :=
@@ -228,5 +232,22 @@ example : check exCfg exEvs (.steps
 example : check exCfg exEvs (.steps
     [[(0, [.openN, .eor 1, .eor 2])], [], [(1, [.openR, .eor 1, .eor 2])], [],
      [(0, [.eor 0]), (1, [.reach 0 0, .eor 0])], [(1, [.reach 0 1])]]) = .fail 1 "wire-restart-bit" := by decide
+
+/-- a helper drops during deferral with graceful restart negotiated: its route is retained and is owed at
+    the release (review r-7, item 1); a daemon that skips stale paths there is refused -/
+def exEvs2 : List Ev := [.rd (.est 0 [0]), .ins 0 0 0, .rd (.est 1 [0]), .rd (.wd 0), .rd (.eor 1 0)]
+example : check { peers := [(0, [0]), (1, [0])], dur := none } exEvs2 (.steps
+    [[(0, [.openR, .eor 1, .eor 2])], [], [(1, [.openR, .eor 1, .eor 2])], [], [(1, [.reach 0 0, .eor 0])]]) = .ok := by
+  decide
+example : check { peers := [(0, [0]), (1, [0])], dur := none } exEvs2 (.steps
+    [[(0, [.openR, .eor 1, .eor 2])], [], [(1, [.openR, .eor 1, .eor 2])], [], [(1, [.eor 0])]])
+    = .fail 5 "wire-release-not-announced" := by decide
+/-- ... but once that helper has established again (here without graceful restart) the helper side may
+    have purged what it retained: announced or not, both are accepted -/
+def exEvs3 : List Ev :=
+  [.rd (.est 0 [0]), .ins 0 0 0, .rd (.est 1 [0]), .rd (.wd 0), .rd (.est 0 []), .rd (.eor 1 0)]
+example : check { peers := [(0, [0]), (1, [0])], dur := none } exEvs3 (.steps
+    [[(0, [.openR, .eor 1, .eor 2])], [], [(1, [.openR, .eor 1, .eor 2])], [], [(0, [.openR, .eor 1, .eor 2])],
+     [(0, [.eor 0]), (1, [.eor 0])]]) = .ok := by decide
 
 end Rbgp.Gr.Restarting.Wire
